@@ -325,6 +325,14 @@ def run(rep):
         for k in c.keywords:
             if k.arg:
                 bound[k.arg] = k.value
+            elif isinstance(k.value, ast.Name):
+                # **flags with flags a dict literal built in this method: its items are keyword arguments
+                for st_ in ast.walk(m):
+                    if isinstance(st_, ast.Assign) and len(st_.targets) == 1 and isinstance(st_.targets[0], ast.Name) and st_.targets[0].id == k.value.id and \
+                            isinstance(st_.value, ast.Dict):
+                        for kk, vv in zip(st_.value.keys, st_.value.values):
+                            if isinstance(kk, ast.Constant) and isinstance(kk.value, str):
+                                bound[kk.value] = vv
         for pn in CTOR_STATE:
             if pn not in bound:
                 rep.violation("R12.e", file, f"Vector.{rb}", f"constructor parameter `{pn}`",
